@@ -6,6 +6,28 @@
 (* same-named non-key columns combined as the mode prescribes.                                  *)
 EXTENDS Table, FiniteSetsExt, SequencesExt
 
+\* ---- abstract key cells -------------------------------------------------------------------------
+\* TLC's integers are 32-bit, the statement's "ints, floats" are not: keys of large magnitude (ints beyond 2^53 and
+\* 2^63, an int next to the float it rounds to) and keys in unusual realisations (numpy scalars of every width,
+\* Timestamp for datetime, str subclasses) cross the boundary as ABSTRACT KEY CELLS
+\*     <<"k", <<class, slot>>>>       class: which key it is - two cells are equal keys iff their classes agree
+\*                                    (classes are numbered in the keys' natural order); slot: which realisation
+\* All the law needs of a key is which keys are equal.  The driver chooses concrete witnesses (harness/x_join.py: a
+\* witness scheme maps class x slot to a Python object, e.g. 2^53, 2^53 + 1, 2^53 + 2 as int / float / numpy.int64) and
+\* encodes every cell that comes back by the class of its exact value.  A "k" cell never equals an ordinary value
+\* (within one table family all keys of the witnesses' kind are "k" cells).
+IsK(v) == Tag(v) = "k"
+KClass(v) == Pay(v)[1]
+RECURSIVE KeyEqK(_, _)
+KeyEqK(u, v) ==
+    IF IsK(u) /\ IsK(v) THEN KClass(u) = KClass(v)
+    ELSE IF IsK(u) \/ IsK(v) THEN FALSE
+    ELSE IF IsSeq(u) /\ IsSeq(v)
+         THEN /\ Tag(u) = Tag(v)
+              /\ Len(Pay(u)) = Len(Pay(v))
+              /\ \A i \in 1..Len(Pay(u)) : KeyEqK(Pay(u)[i], Pay(v)[i])
+    ELSE KeyEq(u, v)
+
 \* ---- keys ---------------------------------------------------------------------------------------
 \* a key specification is <<"col", name>> or <<"fn", f>> with f from the menu of computed keys
 KeyVal(row, ks) == IF ks[1] = "col" THEN row[ks[2]]
@@ -13,7 +35,7 @@ KeyVal(row, ks) == IF ks[1] = "col" THEN row[ks[2]]
                           [] ks[2] = "ident_b" -> row.b                       \* lambda b: b
                           [] ks[2] = "pair_ab"  -> VTup(<<row.a, row.b>>)     \* lambda a, b: (a, b)
 Key(row, kss) == [k \in 1..Len(kss) |-> KeyVal(row, kss[k])]
-Match(l, r, lk, rk) == \A k \in 1..Len(lk) : KeyEq(KeyVal(l, lk[k]), KeyVal(r, rk[k]))
+Match(l, r, lk, rk) == \A k \in 1..Len(lk) : KeyEqK(KeyVal(l, lk[k]), KeyVal(r, rk[k]))
 \* the name under which key k appears in the result: the left name if the left key is a column,
 \* else the right name; two computed keys cannot be joined (ValueError)
 KeyNameOK(lk, rk) == \A k \in 1..Len(lk) : lk[k][1] = "col" \/ rk[k][1] = "col"
@@ -43,7 +65,7 @@ XorRows(x, y, lk, rk) == SelectSeq(x.rows, LAMBDA l : \A j \in 1..NRows(y) : ~Ma
 \* key cells are compared with KeyEq (the result may show 1.0 where the row had 1, or another NaN
 \* object: "carrying the key"), all other cells exactly
 RowEquiv(r1, r2, keynames) == /\ DOMAIN r1 = DOMAIN r2
-                              /\ \A c \in DOMAIN r1 : IF c \in keynames THEN KeyEq(r1[c], r2[c]) ELSE r1[c] = r2[c]
+                              /\ \A c \in DOMAIN r1 : IF c \in keynames THEN KeyEqK(r1[c], r2[c]) ELSE r1[c] = r2[c]
 CountEq(rows, r, kn) == Cardinality({i \in 1..Len(rows) : RowEquiv(rows[i], r, kn)})
 BagEq(out, exp, kn) == /\ Len(out) = Len(exp)
                        /\ \A i \in 1..Len(out) : CountEq(out, out[i], kn) = CountEq(exp, out[i], kn)
